@@ -9,8 +9,17 @@ theorem rd32_be32 (n : Nat) : rd32 (be32 n) = n % two32 := by
 
 theorem be32_length (n : Nat) : (be32 n).length = 4 := rfl
 
+theorem hasAtLeast_iff (n : Nat) (bs : Bytes) : hasAtLeast n bs = true ↔ n ≤ bs.length := by
+  induction n generalizing bs with
+  | zero => simp [hasAtLeast]
+  | succ k ih =>
+    cases bs with
+    | nil => simp [hasAtLeast]
+    | cons x t => simp [hasAtLeast, ih]
+
 theorem readFull_append (a b : Bytes) : readFull a.length (a ++ b) = .ok (a, b) := by
-  simp [readFull]
+  have : hasAtLeast a.length (a ++ b) = true := (hasAtLeast_iff _ _).mpr (by simp)
+  simp [readFull, this]
 
 theorem readFull_append' {n : Nat} (a b : Bytes) (h : a.length = n) : readFull n (a ++ b) = .ok (a, b) := by
   subst h; exact readFull_append a b
@@ -19,7 +28,8 @@ theorem readFull_ok {n : Nat} {bs a b : Bytes} (h : readFull n bs = .ok (a, b)) 
     n ≤ bs.length ∧ a = bs.take n ∧ b = bs.drop n := by
   unfold readFull at h
   split at h
-  · simp at h; exact ⟨by assumption, h.1.symm, h.2.symm⟩
+  · rename_i hh
+    simp at h; exact ⟨(hasAtLeast_iff _ _).mp hh, h.1.symm, h.2.symm⟩
   · split at h <;> simp at h
 
 theorem frameHead_length (ft mt : UInt8) (id : Bytes) (h : id.length = 8) : (frameHead ft mt id).length = 10 := by
@@ -192,7 +202,7 @@ theorem readAllFuel_encodeAll (fs : List Frame) (hv : ∀ f ∈ fs, f.Valid) :
     intro fuel h
     cases fuel with
     | zero => simp at h
-    | succ k => simp [readAllFuel, encodeAll, readFrame, readFrameWith, readFull]
+    | succ k => simp [readAllFuel, encodeAll, readFrame, readFrameWith, readFull, hasAtLeast]
   | cons f fs ih =>
     intro fuel h
     cases fuel with
